@@ -24,7 +24,7 @@ prop("C13", pkg="c13",
           "in range, at most one union member) Unmarshal must accept it and yield that value, and Marshal of the result must be a specification encoding of its content; "
           "otherwise only no panic and <= 64 MiB allocated. Seeds: canonical and long-form/reordered thriftspec encodings of 3 generated values per (target, protocol) plus "
           "hostile sizes, type bytes and ids (173 inputs, also run in both tiers as TestFuzzSpecSeeds, where the KF-C13-005 exclusions are counted). "
-          "Non-trivial = content with >= 1 container or >= 3 fields, or a sequence of >= 3 items; distinct = FNV-64 of the serialised case.",
+          "The wseq (read back through one Reader), readers and unmarshal (then through a Decoder) cases draw a delivery schedule for the io.Reader under the thrift Reader: all at once, one byte per Read, halves, chunks of 1..7 bytes, a 16-byte bufio.Reader, last chunk returned together with io.EOF - every conformant encoding is accepted however it arrives. Non-trivial = content with >= 1 container or >= 3 fields, or a sequence of >= 3 items; distinct = FNV-64 of the serialised case.",
      quick=dict(shards=16, scale=1, timeout=600),
      thorough=dict(shards=16, scale=3, timeout=3000),
      fuzz=[("FuzzThriftSpecDiff", 60)],
